@@ -42,6 +42,9 @@ pub struct IoSink {
     /// Every n-th call returns `Interrupted` without accepting anything.
     pub interrupt_every: usize,
     pub flush_fails: bool,
+    /// Error kind of the injected flush failure (a flush that keeps failing
+    /// with Interrupted / WouldBlock is still a failed flush).
+    pub flush_kind: ErrorKind,
     /// Transient fault: exactly this call (0-based, counted over non-empty
     /// writes) is rejected with ErrorKind::Other and accepts nothing; every
     /// other call is served normally.  `writes_after_error` counts the bytes
@@ -67,6 +70,7 @@ impl Default for IoSink {
             chunk: Chunk::All,
             interrupt_every: 0,
             flush_fails: false,
+            flush_kind: ErrorKind::Other,
             reject_call: None,
             data_calls: 0,
             rejected: false,
@@ -132,7 +136,7 @@ impl Write for IoSink {
         self.flushes += 1;
         if self.flush_fails {
             self.errors += 1;
-            Err(io::Error::new(ErrorKind::Other, "injected flush failure"))
+            Err(io::Error::new(self.flush_kind, "injected flush failure"))
         } else {
             Ok(())
         }
